@@ -44,7 +44,6 @@ def StepsWF (T : Table) : List Step → Prop
 
 /-- steps covered by `C01_partial` (the others are only compared executably: implementation vs `specStep`) -/
 def Step.inTheorem : Step → Bool
-  | .unpivot _ _ _ _ => false
   | _ => true
 
 /-- named scope hypotheses violated by a program (none are open after the `fix:` commits) -/
